@@ -103,6 +103,7 @@ package account
 //@   requires adb != nil
 //@   ensures [hit]  old(registered(ref(adb), addr)) != 0 && !ptr(accountObject, old(registered(ref(adb), addr))).deleted ==> ref(result) == old(registered(ref(adb), addr))
 //@   ensures [keep] forall a common.Address :: old(registered(ref(adb), a)) != 0 ==> registered(ref(adb), a) == old(registered(ref(adb), a))
+//@   ensures [reg]  result != nil ==> ref(result) == registered(ref(adb), addr) && !result.deleted && result.db == adb
 //@   modifies ghost(acct)
 
 //@ func accountObject.onDirty
@@ -275,3 +276,34 @@ package account
 //@   property C06
 //@   requires self != nil
 //@   ensures [credited] balance != nil && bindFound(ftName) ==> slotVal(self, ftName, addr) == absZ(slotWas(self, ftName, addr) + fmt20(old(big(balance)), int64(bindDec(ftName))))
+
+// Self-destruct (C04): every call that zeroes the balance journals the previous flag and the previous balance -
+// also a repeated self-destruct of an account that was refunded in between.
+//@ func AccountDB.setBalance
+//@   option trusted
+//@   requires self != nil && balance != nil
+//@   ensures ghost(bal) == @store(old(ghost(bal)), addr, old(big(balance))) && ghost(supply) == old(ghost(supply)) - old(balOf(addr)) + old(big(balance))
+//@   modifies ghost(bal), ghost(supply), ghost(stor)
+
+//@ func accountObject.markSuicided
+//@   property C04
+//@   requires ao != nil && ao.db != nil
+//@   ensures ao.suicided && ao.onDirty == nil
+//@   modifies ao.suicided, ao.onDirty, heap("map[common.Address]struct{}")
+
+//@ func AccountDB.Suicide
+//@   property C04
+//@   requires adb != nil && common.Big0 != nil && big(common.Big0) == 0
+//@   ensures [journal] result ==> len(adb.transitions) == old(len(adb.transitions)) + 1 && istype(adb.transitions[len(adb.transitions)-1], suicideChange)
+//@   ensures [prev]    result ==> unbox(adb.transitions[len(adb.transitions)-1], suicideChange).prev == old(ptr(accountObject, registered(ref(adb), addr)).suicided) || old(registered(ref(adb), addr)) == 0
+//@   ensures [prevbal] result ==> unbox(adb.transitions[len(adb.transitions)-1], suicideChange).prevbalance != nil && big(unbox(adb.transitions[len(adb.transitions)-1], suicideChange).prevbalance) == old(balOf(addr))
+//@   ensures [account] result ==> unbox(adb.transitions[len(adb.transitions)-1], suicideChange).account != nil && *unbox(adb.transitions[len(adb.transitions)-1], suicideChange).account == addr
+//@   ensures [prefix]  forall i int :: 0 <= i && i < old(len(adb.transitions)) ==> adb.transitions[i] == old(adb.transitions[i])
+//@   ensures [none]    !result ==> len(adb.transitions) == old(len(adb.transitions)) && ghost(bal) == old(ghost(bal))
+//@   ensures [zero]    result ==> balOf(addr) == 0
+
+//@ func suicideChange.undo
+//@   property C04
+//@   requires s != nil && ch.account != nil && ch.prevbalance != nil
+//@   ensures [balance] old(registered(ref(s), *ch.account)) != 0 && !old(ptr(accountObject, registered(ref(s), *ch.account)).deleted) ==> balOf(*ch.account) == big(ch.prevbalance)
+//@   ensures [flag]    old(registered(ref(s), *ch.account)) != 0 && !old(ptr(accountObject, registered(ref(s), *ch.account)).deleted) ==> ptr(accountObject, old(registered(ref(s), *ch.account))).suicided == ch.prev
